@@ -420,6 +420,23 @@ impl Node {
     }
 }
 
+/// Style-free normal form: minimal heads, definite containers, chunked strings merged. Two
+/// encodings denote the same data item (up to encoding style) iff their normal forms are equal.
+pub fn canon(n: &Node) -> Node {
+    match n {
+        Node::UInt(v, _) => Node::UInt(*v, 0),
+        Node::NInt(v, _) => Node::NInt(*v, 0),
+        Node::Bytes(b, _) => Node::Bytes(b.clone(), 0),
+        Node::BytesIndef(cs) => Node::Bytes(cs.concat(), 0),
+        Node::Text(t, _) => Node::Text(t.clone(), 0),
+        Node::TextIndef(cs) => Node::Text(cs.concat(), 0),
+        Node::Array(xs, _) | Node::ArrayIndef(xs) => Node::Array(xs.iter().map(canon).collect(), 0),
+        Node::Map(xs, _) | Node::MapIndef(xs) => Node::Map(xs.iter().map(|(k, v)| (canon(k), canon(v))).collect(), 0),
+        Node::Tag(t, _, x) => Node::Tag(*t, 0, Box::new(canon(x))),
+        other => other.clone(),
+    }
+}
+
 /// Build a Node tree from a parsed Item (keeps the original style).
 pub fn to_node(src: &[u8], it: &Item) -> Node {
     let w = match it.ai {
